@@ -2,6 +2,7 @@ package main
 
 import (
 	"fmt"
+	"syscall"
 
 	"github.com/xujiajun/nutsdb"
 )
@@ -283,11 +284,71 @@ func exactFill(c *CaseCtx, class string) {
 	c.Nontrivial(true)
 }
 
+// manySegments: a directory with a few hundred data segments (one or two records each) is reopened while the
+// process may only hold 96 descriptors: Open has to release each segment as it goes.
+func manySegments(c *CaseCtx, class string) {
+	r := c.Rng
+	for _, mode := range []int{0, 1} {
+		cfg := Cfg{Mode: mode, RW: r.Intn(2), StartRW: 0, Seg: int64(100 + r.Intn(40)), Sync: false}
+		if r.Intn(3) == 0 {
+			cfg.StartRW = 1
+		}
+		dir := c.Dir(fmt.Sprintf("many-%d", mode))
+		db, err := openNoPanic(cfg.Options(dir))
+		if err != nil {
+			c.Violate("open-failed:"+errClass(err.Error()), class, fmt.Sprintf("first Open(%s) failed: %v", cfg, err))
+			continue
+		}
+		n := 260 + r.Intn(80)
+		for i := 0; i < n; i++ {
+			k := []byte(fmt.Sprintf("k%03d", i%50))
+			if err := db.Update(func(tx *nutsdb.Tx) error { return tx.Put("b", k, []byte(fmt.Sprintf("value-%d-padding-padding", i)), 0) }); err != nil {
+				c.Violate("commit-error:"+errClass(err.Error()), class, fmt.Sprintf("Put %d failed (%s): %v", i, cfg, err))
+				break
+			}
+		}
+		db.Close()
+		files := countDataFiles(dir)
+		var old syscall.Rlimit
+		lowered := false
+		if err := syscall.Getrlimit(syscall.RLIMIT_NOFILE, &old); err == nil {
+			low := old
+			low.Cur = 96
+			if low.Cur <= old.Max && syscall.Setrlimit(syscall.RLIMIT_NOFILE, &low) == nil {
+				lowered = true
+			}
+		}
+		db, err = openNoPanic(cfg.Options(dir))
+		if lowered {
+			syscall.Setrlimit(syscall.RLIMIT_NOFILE, &old)
+		}
+		c.Stat("many_segment_directories", 1)
+		c.StatMax("max_segments_reopened", int64(files))
+		c.Log("many segments %s files=%d descriptor limit lowered=%v", cfg, files, lowered)
+		if err != nil {
+			c.Violate("open-failed:"+errClass(err.Error()), class, fmt.Sprintf("Open(%s) failed on a cleanly closed directory with %d data segments (descriptor limit 96): %v", cfg, files, err))
+			continue
+		}
+		db.View(func(tx *nutsdb.Tx) error {
+			if e, gerr := tx.Get("b", []byte("k007")); gerr != nil || e == nil {
+				c.Violate("reopen-diff:many-segments:Get", class, fmt.Sprintf("k007 not readable after reopening %d segments (%s): %v", files, cfg, gerr))
+			}
+			return nil
+		})
+		db.Close()
+	}
+	c.Nontrivial(true)
+}
+
 func init() {
 	register(&Check{
 		ID: "C09", Level: "fault_enumeration",
 		NCases: func(t string) int { return tier(t, 64, 1600) },
 		Run: func(c *CaseCtx) {
+			if c.Case%16 == 7 {
+				manySegments(c, "many-segments")
+				return
+			}
 			switch c.Case % 4 {
 			case 0:
 				exactFill(c, "exact-fill")
